@@ -749,11 +749,13 @@ Proof.
     { clear. generalize (off + 12). generalize 4%nat. induction n as [|n IH]; intros i; cbn [sle]; [lia|].
       specialize (IH (i + 1)). unfold sbyte. pose proof (Z.mod_pos_bound (nth (Z.to_nat i) bs 0) 256 ltac:(lia)). lia. }
     destruct ((16 + sle bs (off + 12) 4 <=? slen bs - off) && (16 + sle bs (off + 12) 4 <=? 2147483647)) eqn:E; [|discriminate].
-    intros H'. inversion H'. lia.
+    apply andb_prop in E. destruct E as (Ea & Eb). apply Z.leb_le in Ea.
+    intros Hq. assert (Hs : s = 16 + sle bs (off + 12) 4) by congruence. lia.
   - assert (0 <= sbyte bs off mod 16 < 16) by (apply Z.mod_pos_bound; lia).
     destruct (sbyte bs off mod 16 =? 0) eqn:E0.
-    + destruct (12 + 0 <=? slen bs - off) eqn:E; [|discriminate]. intros H'. inversion H'. lia.
-    + destruct (12 + (sbyte bs off mod 16 + 1) <=? slen bs - off) eqn:E; [|discriminate]. intros H'. inversion H'. lia.
+    + destruct (12 + 0 <=? slen bs - off) eqn:E; [|discriminate]. intros Hq. assert (Hs : s = 12 + 0) by congruence. lia.
+    + destruct (12 + (sbyte bs off mod 16 + 1) <=? slen bs - off) eqn:E; [|discriminate].
+      intros Hq. assert (Hs : s = 12 + (sbyte bs off mod 16 + 1)) by congruence. lia.
 Qed.
 
 Lemma tiles_count bs sorted p last evs :
@@ -843,3 +845,211 @@ Proof.
   destruct v; try contradiction; [|reflexivity].
   exfalso. apply (Hn evs). apply (run_accept_iff bs junk u evs Hsz). exact Er.
 Qed.
+
+(* ------------------------------------------------------------------ *)
+(* corollaries for the classes named in C12                             *)
+
+Lemma short_rejected bs junk u : blen bs < 8 -> exists e, run bs junk u = RunLoadErr e.
+Proof.
+  intros H. unfold run, run_with, load_obs. destruct (blen bs =? 0); [eexists; reflexivity|].
+  unfold check_stream_header, c_sizeof_struct_ovni_stream_header.
+  replace (blen bs <? 8) with true by lia. eexists; reflexivity.
+Qed.
+
+Lemma bad_header_rejected bs junk u : spec_header_ok bs = false -> exists e, run bs junk u = RunLoadErr e.
+Proof.
+  intros H. unfold run, run_with, load_obs. destruct (blen bs =? 0); [eexists; reflexivity|].
+  destruct (check_stream_header bs junk) as [e|] eqn:Ec; [eexists; reflexivity|].
+  apply header_model in Ec. congruence.
+Qed.
+
+Lemma bad_magic_rejected bs junk u k :
+  (k < 4)%nat -> sbyte bs (Z.of_nat k) <> nth k spec_magic 0 -> exists e, run bs junk u = RunLoadErr e.
+Proof.
+  intros Hk Hne. apply bad_header_rejected. unfold spec_header_ok.
+  destruct k as [|[|[|[|k]]]]; try lia; cbn in Hne;
+    [destruct (sbyte bs 0 =? 111) eqn:E|destruct (sbyte bs 1 =? 118) eqn:E|
+     destruct (sbyte bs 2 =? 110) eqn:E|destruct (sbyte bs 3 =? 105) eqn:E]; try lia;
+    rewrite ?andb_false_r; reflexivity.
+Qed.
+
+Lemma bad_version_rejected bs junk u :
+  sle bs 4 4 <> 1 -> exists e, run bs junk u = RunLoadErr e.
+Proof.
+  intros Hne. apply bad_header_rejected. unfold spec_header_ok.
+  destruct (sle bs 4 4 =? 1) eqn:E; [lia|]. rewrite ?andb_false_r. reflexivity.
+Qed.
+
+(* truncated trailing event / any file whose bytes after the header are not a sequence of whole events *)
+Lemma not_tiling_rejected bs junk u :
+  blen bs < 2 ^ 63 -> spec_header_ok bs = true ->
+  (forall evs, ~ tiles_from bs false 8 0 evs) ->
+  exists e evs, run bs junk u = Run (VErr e) evs.
+Proof.
+  intros Hsz Hh Hn.
+  assert (Hinv : forall evs, ~ valid_obs bs (negb u) evs).
+  { intros evs (_ & Ht). apply (Hn evs). destruct (negb u); [apply (tiles_weaken _ _ _ _ Ht)|exact Ht]. }
+  pose proof (invalid_rejected bs junk u Hsz Hinv) as Hr.
+  destruct (run bs junk u) as [e|v evs] eqn:Er.
+  - exfalso. unfold run, run_with, load_obs in Er.
+    destruct (blen bs =? 0) eqn:E0.
+    + unfold spec_header_ok in Hh. change (slen bs) with (blen bs) in Hh. lia.
+    + assert (Hc : check_stream_header bs junk = None) by (apply header_model; exact Hh).
+      rewrite Hc in Er. unfold c_sizeof_struct_ovni_stream_header in Er.
+      unfold spec_header_ok in Hh. change (slen bs) with (blen bs) in Hh.
+      destruct (8 <? blen bs) eqn:E1.
+      * cbn [s_active] in Er. destruct (walk guard_new _ _); discriminate.
+      * replace (8 =? blen bs) with true in Er by lia. discriminate.
+  - destruct v; try discriminate. eexists; eexists; reflexivity.
+Qed.
+
+Fixpoint clocks_sorted (last : Z) (evs : list (Z * Z * Z)) : Prop :=
+  match evs with
+  | [] => True
+  | (_, _, c) :: r => last <= c /\ clocks_sorted c r
+  end.
+
+Lemma tiles_sorted bs p last evs : tiles_from bs true p last evs -> clocks_sorted last evs.
+Proof.
+  induction 1 as [last|off last s evs Hlt Hspec Hsort Htl IH]; cbn [clocks_sorted]; [exact I|].
+  split; [apply Hsort; reflexivity|exact IH].
+Qed.
+
+(* a stream whose events tile but whose clocks go backwards somewhere is rejected unless the
+   consumer allowed unsorted streams (ovnisort, ovnidump) *)
+Lemma clock_backwards_rejected bs junk evs :
+  blen bs < 2 ^ 63 ->
+  tiles_from bs false 8 0 evs -> ~ clocks_sorted 0 evs ->
+  rejected_cleanly (run bs junk false) = true.
+Proof.
+  intros Hsz Ht Hns. apply invalid_rejected; [exact Hsz|].
+  intros evs' (_ & Ht'). cbn [negb] in Ht'.
+  pose proof (tiles_weaken _ _ _ _ Ht' 0) as Hw.
+  rewrite (tiles_deterministic _ _ _ _ _ _ _ _ Hw Ht) in Ht'.
+  apply Hns. eapply tiles_sorted. exact Ht'.
+Qed.
+
+(* the decider of Emu/LoaderSpec.v decides the relation *)
+Lemma tiles_dec_sound bs sorted : forall fuel p last evs,
+  tiles_dec fuel bs sorted p last = Some evs -> tiles_from bs sorted p last evs.
+Proof.
+  induction fuel as [|f IH]; intros p last evs H; cbn [tiles_dec] in H.
+  - destruct (p =? slen bs) eqn:E; [|discriminate]. inversion H. apply Z.eqb_eq in E. subst. apply tiles_end.
+  - destruct (p =? slen bs) eqn:E.
+    + inversion H. apply Z.eqb_eq in E. subst. apply tiles_end.
+    + destruct (slen bs <? p) eqn:E2; [discriminate|].
+      destruct (spec_ev_size bs p) as [s|] eqn:Es; [|discriminate].
+      destruct (sorted && (spec_clock bs p <? last)) eqn:Ec; [discriminate|].
+      destruct (tiles_dec f bs sorted (p + s) (spec_clock bs p)) as [evs'|] eqn:Er; [|discriminate].
+      inversion H; subst evs. apply tiles_ev; try assumption; try lia.
+      * intros ->. cbn [andb] in Ec. lia.
+      * apply IH. exact Er.
+Qed.
+
+Lemma tiles_dec_complete bs sorted : forall p last evs,
+  tiles_from bs sorted p last evs -> forall fuel, (length evs <= fuel)%nat ->
+  tiles_dec fuel bs sorted p last = Some evs.
+Proof.
+  induction 1 as [last|off last s evs Hlt Hspec Hsort Htl IH]; intros fuel Hf.
+  - destruct fuel; cbn [tiles_dec]; rewrite Z.eqb_refl; reflexivity.
+  - destruct fuel as [|f]; [cbn in Hf; lia|]. cbn [tiles_dec].
+    replace (off =? slen bs) with false by lia. replace (slen bs <? off) with false by lia.
+    rewrite Hspec.
+    assert (Hc : sorted && (spec_clock bs off <? last) = false).
+    { destruct sorted; [|reflexivity]. specialize (Hsort eq_refl). cbn [andb]. lia. }
+    rewrite Hc. rewrite IH by (cbn [length] in Hf; lia). reflexivity.
+Qed.
+
+Theorem tiles_decides bs sorted evs :
+  tiles bs sorted = Some evs <-> valid_obs bs sorted evs.
+Proof.
+  unfold tiles, valid_obs. split.
+  - destruct (spec_header_ok bs); [|discriminate]. intros H. split; [reflexivity|]. eapply tiles_dec_sound. exact H.
+  - intros (Hh & Ht). rewrite Hh. apply tiles_dec_complete; [exact Ht|].
+    destruct (tiles_count _ _ _ _ _ Ht) as (_ & Hn). unfold slen in Hn. lia.
+Qed.
+
+(* ------------------------------------------------------------------ *)
+(* ovnisort's region walks                                              *)
+
+(* a region [p, e) made of whole events (every region ovnisort walks is one: its ends are events
+   that stream_step delivered) *)
+Inductive region (bs : list Z) : Z -> Z -> nat -> Prop :=
+| region_nil : forall p, region bs p p O
+| region_cons : forall p e s n, 0 <= p < slen bs -> spec_ev_size bs p = Some s -> region bs (p + s) e n -> region bs p e (S n).
+
+Lemma region_le bs p e n : region bs p e n -> p <= e.
+Proof. induction 1; [lia|]. apply spec_ev_size_min in H0. lia. Qed.
+
+Theorem count_events_total bs junk : forall p e n,
+  region bs p e n -> forall fuel k, (n < fuel)%nat ->
+  count_events fuel bs junk p e k = RegDone (k + Z.of_nat n) e.
+Proof.
+  induction 1 as [p|p e s n Hp Hs Hr IH]; intros fuel k Hf.
+  - destruct fuel as [|f]; [lia|]. cbn [count_events]. replace (p >=? p) with true by lia.
+    f_equal. cbn. lia.
+  - destruct fuel as [|f]; [lia|]. cbn [count_events].
+    pose proof (region_le _ _ _ _ Hr) as Hle. pose proof (spec_ev_size_min _ _ _ Hs) as Hmin.
+    replace (p >=? e) with false by lia.
+    rewrite (spec_ev_size_model bs junk p) in Hs by (change (blen bs) with (slen bs); lia).
+    cbv zeta in Hs.
+    destruct (ev_size_checked (mk_evp bs p junk) (blen bs - p) <? 0) eqn:E; [discriminate|].
+    inversion Hs as [Hs']. clear Hs.
+    pose (st := mk_stream bs junk p true true 0 false).
+    assert (Hfit : fits st p) by (unfold fits, st, s_size, view; cbn [s_buf s_junk]; lia).
+    pose proof (ev_size_reads_inside st p Hfit ltac:(lia)) as Hrd.
+    unfold st, view in Hrd. cbn [s_buf s_junk] in Hrd. rewrite Hrd.
+    destruct (ev_size_checked_ok _ _ _ eq_refl Hfit) as (H12 & _ & Hsize & Hint & _).
+    unfold st, view, s_size in Hsize, Hint. cbn [s_buf s_junk] in Hsize, Hint.
+    rewrite Hint. cbn [negb]. rewrite Hsize, Hs'.
+    replace (s <=? 0) with false by lia.
+    rewrite IH by lia. f_equal. lia.
+Qed.
+
+(* ------------------------------------------------------------------ *)
+(* the code as found: refutations (kept as the record of the defect)    *)
+
+Definition zero_junk : Z -> Z := fun _ => 0.
+Definition hdr : list Z := [111; 118; 110; 105; 1; 0; 0; 0].
+(* jumbo event "OB." at clock 10 with the given 32-bit size field, no data *)
+Definition jumbo_hdr (b0 b1 b2 b3 : Z) : list Z := [19; 79; 66; 46; 10; 0; 0; 0; 0; 0; 0; 0; b0; b1; b2; b3].
+
+(* size field 0xFFFFFFF0: (int)(4 + size) = -12, event size 0: the cursor never moves *)
+Lemma old_no_progress :
+  exists bs, run_old bs zero_junk false = Run (VNoProgress 8) [(8, 0, 10)].
+Proof. exists (hdr ++ jumbo_hdr 240 255 255 255). vm_compute. reflexivity. Qed.
+
+(* size field 0xFFFFFFE4 in the second event: event size -12, the cursor steps back onto the first
+   (unsorted consumer: ovnidump, ovnitop, ovnisort; a sorted one stops at the clock check) *)
+Lemma old_steps_backwards :
+  exists bs evs, run_old bs zero_junk true = Run (VNoProgress 8) evs.
+Proof.
+  exists (hdr ++ [0; 79; 66; 46; 5; 0; 0; 0; 0; 0; 0; 0] ++ jumbo_hdr 228 255 255 255). eexists.
+  vm_compute. reflexivity.
+Qed.
+
+(* a jumbo flag in the last 12 bytes: the size field is read behind the end of the buffer *)
+Lemma old_reads_outside :
+  exists bs p, blen bs <= p /\ run_old bs zero_junk false = Run (VOob p) [].
+Proof.
+  exists (hdr ++ [19; 79; 66; 46; 10; 0; 0; 0; 0; 0; 0; 0]), 20. split; [vm_compute; discriminate|].
+  vm_compute. reflexivity.
+Qed.
+
+(* size field 0x7FFFFFFB: 12 + (int)(4 + size) overflows the int *)
+Lemma old_int_overflow :
+  exists bs, run_old bs zero_junk false = Run VSOverflow [].
+Proof. exists (hdr ++ jumbo_hdr 251 255 255 127). vm_compute. reflexivity. Qed.
+
+(* the repaired step on the same inputs *)
+Lemma new_on_old_witnesses :
+  run (hdr ++ jumbo_hdr 240 255 255 255) zero_junk false = Run (VErr EIncomplete) [] /\
+  run (hdr ++ [19; 79; 66; 46; 10; 0; 0; 0; 0; 0; 0; 0]) zero_junk false = Run (VErr EIncomplete) [] /\
+  run (hdr ++ jumbo_hdr 251 255 255 127) zero_junk false = Run (VErr EIncomplete) [].
+Proof. repeat split; vm_compute; reflexivity. Qed.
+
+(* non-vacuity *)
+Example ex_valid_stream :
+  run (hdr ++ [0; 79; 66; 46; 5; 0; 0; 0; 0; 0; 0; 0] ++ jumbo_hdr 2 0 0 0 ++ [7; 7]) zero_junk false =
+  Run VEnd [(8, 12, 5); (20, 18, 10)].
+Proof. vm_compute. reflexivity. Qed.
